@@ -229,6 +229,29 @@ def computed_field_clause(ctx):
         b = match_expr('AGGREGATORS[__OP].func(__VALS, __W, _row)', resolve_here(agg[0].value), {'_row': var})
         ok = match_expr("_f['operation']", b['__OP'], {'_f': fieldvar}) is not None
         vals = b['__VALS']
+        if isinstance(vals, ast.List) and not vals.elts and isinstance(agg[0].value, ast.Call) and agg[0].value.args and \
+                isinstance(agg[0].value.args[0], ast.Name):
+            vals = agg[0].value.args[0]         # the name, not its initial value: the list is filled by a loop
+        if isinstance(vals, ast.Name):
+            # the list built by an explicit loop: v = []; for c in S: if C: v.append(E)   is   [E for c in S if C]
+            vn = vals.id
+            inits = [a_ for a_ in ast.walk(loop) if isinstance(a_, ast.Assign) and pseudo(a_.targets[0]) == vn]
+            fills = [l_ for l_ in ast.walk(loop) if isinstance(l_, ast.For) and l_ is not loop and any(
+                isinstance(c_, ast.Call) and isinstance(c_.func, ast.Attribute) and c_.func.attr == 'append' and pseudo(c_.func.value) == vn
+                for c_ in ast.walk(l_))]
+            fills = [l_ for l_ in fills if not any(o_ is not l_ and o_ in list(ast.walk(l_)) for o_ in fills)]     # the innermost
+            if len(inits) == 1 and isinstance(inits[0].value, ast.List) and not inits[0].value.elts and len(fills) == 1:
+                fl_ = fills[0]
+                body_ = fl_.body
+                conds_ = []
+                while len(body_) == 1 and isinstance(body_[0], ast.If) and not body_[0].orelse:
+                    conds_.append(body_[0].test)
+                    body_ = body_[0].body
+                if len(body_) == 1 and isinstance(body_[0], ast.Expr) and isinstance(body_[0].value, ast.Call) and \
+                        isinstance(body_[0].value.func, ast.Attribute) and body_[0].value.func.attr == 'append' and len(body_[0].value.args) == 1:
+                    vals = ast.ListComp(elt=body_[0].value.args[0], generators=[ast.comprehension(target=fl_.target, iter=fl_.iter, ifs=conds_,
+                                                                                                  is_async=0)])
+                    ast.fix_missing_locations(vals)
         okv = match_expr("[_row.get(_c) for _c in _f.get('source', []) if _row.get(_c) is not None]", vals,
                          {'_row': var, '_f': fieldvar}) is not None or \
             match_expr("[_row[_c] for _c in _f.get('source', []) if _row.get(_c) is not None]", vals, {'_row': var, '_f': fieldvar}) is not None
@@ -283,8 +306,13 @@ def computed_field_schema_clause(ctx):
         ok = len(apps) == 1
         if ok:
             v = apps[0].args[0]
-            named = match_expr("dict(name=%s['target'], type=get_type(%s['schema']['fields'], %s.get('source', []), %s['operation']))"
-                               % (f, g.params[0], f, f), v) is not None
+            kv = {}
+            if isinstance(v, ast.Call) and u(v.func) == 'dict' and not v.args:
+                kv = {k.arg: k.value for k in v.keywords if k.arg}
+            elif isinstance(v, ast.Dict):
+                kv = {k.value: x for k, x in zip(v.keys, v.values) if isinstance(k, ast.Constant)}
+            named = set(kv) == {'name', 'type'} and u(kv['name']) == "%s['target']" % f and \
+                match_expr("get_type(%s['schema']['fields'], %s.get('source', []), %s['operation'])" % (g.params[0], f, f), kv['type']) is not None
             copied = match_expr("copy.deepcopy(%s['target'])" % f, v) is not None
             is_str = None
             for t, pol in pv.guards:
